@@ -1,14 +1,48 @@
 import HapVerif.Drv.Common
-import HapVerif.Drv.C16
+import HapVerif.Drv.C01
+import HapVerif.Drv.C02
+import HapVerif.Drv.C03
+import HapVerif.Drv.C04
+import HapVerif.Drv.C05
+import HapVerif.Drv.C06
+import HapVerif.Drv.C07
+import HapVerif.Drv.C08
+import HapVerif.Drv.C09
+import HapVerif.Drv.C10
+import HapVerif.Drv.C11
+import HapVerif.Drv.C12
 import HapVerif.Drv.C13
+import HapVerif.Drv.C14
+import HapVerif.Drv.C15
+import HapVerif.Drv.C16
+import HapVerif.Drv.C17
+import HapVerif.Drv.C18
+import HapVerif.Drv.C19
 open HapVerif HapVerif.Drv
 
 /-- one case per line: `<PROP> <args...> => <implementation output>` -/
 def dispatch (line : String) : String :=
   let (lhs, impl) := splitOn1 line " => "
   match words lhs with
-  | "C16" :: args => (C16.handle args impl).render
+  | "C01" :: args => (C01.handle args impl).render
+  | "C02" :: args => (C02.handle args impl).render
+  | "C03" :: args => (C03.handle args impl).render
+  | "C04" :: args => (C04.handle args impl).render
+  | "C05" :: args => (C05.handle args impl).render
+  | "C06" :: args => (C06.handle args impl).render
+  | "C07" :: args => (C07.handle args impl).render
+  | "C08" :: args => (C08.handle args impl).render
+  | "C09" :: args => (C09.handle args impl).render
+  | "C10" :: args => (C10.handle args impl).render
+  | "C11" :: args => (C11.handle args impl).render
+  | "C12" :: args => (C12.handle args impl).render
   | "C13" :: args => (C13.handle args impl).render
+  | "C14" :: args => (C14.handle args impl).render
+  | "C15" :: args => (C15.handle args impl).render
+  | "C16" :: args => (C16.handle args impl).render
+  | "C17" :: args => (C17.handle args impl).render
+  | "C18" :: args => (C18.handle args impl).render
+  | "C19" :: args => (C19.handle args impl).render
   | _ => (bad "unknown-property").render
 
 partial def loop (h : IO.FS.Stream) (out : IO.FS.Stream) : IO Unit := do
